@@ -9,6 +9,7 @@ pub mod c05;
 pub mod c06;
 pub mod c07;
 pub mod c08;
+pub mod c09;
 pub mod c10;
 pub mod c11;
 pub mod c12;
@@ -23,5 +24,5 @@ pub mod c20;
 use crate::runner::PropDef;
 
 pub fn all() -> Vec<PropDef> {
-    vec![c01::prop(), c02::prop(), c10::prop(), c03::prop(), c04::prop(), c12::prop(), c05::prop(), c06::prop(), c07::prop(), c08::prop(), c11::prop(), c13::prop(), c14::prop(), c16::prop(), c17::prop(), c18::prop(), c19::prop(), c20::prop()]
+    vec![c01::prop(), c02::prop(), c09::prop(), c10::prop(), c03::prop(), c04::prop(), c12::prop(), c05::prop(), c06::prop(), c07::prop(), c08::prop(), c11::prop(), c13::prop(), c14::prop(), c16::prop(), c17::prop(), c18::prop(), c19::prop(), c20::prop()]
 }
